@@ -18,7 +18,7 @@ open Parsley Parsley.Prim Parsley.Obj Parsley.ObjStm Parsley.ObjStmSpec Parsley.
           ex    exhaustive small space: 2-pair header with offsets (o0,o1) over a content on the
                 alphabet {1,2,blank,x}; the oracle is a three-line reader written here
           mut   arbitrary corruption: correspondence and no-panic only
-   predef `-` or comma-separated `id.gen` already defined in the context (bound to the integer 7*id+gen)
+   predef `-` or comma-separated `id.gen` already defined in the context (bound to the integer 7*(id%1000)+gen%7)
    dechex `=`  no filter is involved (or decoding is expected to fail);
           else the decoded data the filter chain yields (the decoders are a parameter of the model)
 -/
@@ -30,7 +30,7 @@ def sexpOpt : Option Obj → String
 def dedup (l : List ObjId) : List ObjId :=
   l.foldl (fun acc k => if acc.contains k then acc else acc ++ [k]) []
 
-def preVal (k : ObjId) : Obj := .int (7 * k.1 + k.2 : Nat)
+def preVal (k : ObjId) : Obj := .int (7 * (k.1 % 1000) + k.2 % 7 : Nat)
 
 /-- the canonical output line of a successful extraction -/
 def okLine (ms : List (Nat × Nat × Nat × Nat × String)) (lookups : List (ObjId × String)) (cur depth : Nat) : String :=
@@ -193,7 +193,7 @@ def pickIds (r : Rng) (n : Nat) : List Nat × Rng :=
   (List.range n).foldl (fun (acc : List Nat × Rng) _ =>
     let (c, r) := acc.2.nat 3
     let (x, r) := if c == 0 then r.pick idPool else r.nat 400
-    if acc.1.contains x then (acc.1 ++ [x + 1000 + acc.1.length * 1001], r) else (acc.1 ++ [x], r)) ([], r)
+    if acc.1.contains x then (acc.1 ++ [200000 + acc.1.length * 1001 + x % 1000], r) else (acc.1 ++ [x], r)) ([], r)
 
 structure Built where
   entries : List Entry
